@@ -66,7 +66,7 @@ func init() {
 	}
 }
 
-var hashSymNames = []string{"a", "b", "c", "zz", "Key", "x1"}
+var hashSymNames = []string{"a", "b", "c", "zz", "Key", "x1", "d", "e", "f", "g9", "h_h", "ii"}
 
 func genHashKeys(r *kernel.RNG, n int) []hkey {
 	var ks []hkey
@@ -144,7 +144,11 @@ func genHashScenario(r *kernel.RNG, tier string, i int) interface{} {
 	if r.Chance(0.15) {
 		sc.Env = "sandbox-std"
 	}
-	sc.Keys = genHashKeys(r, r.Range(2, 8))
+	nk := r.Range(2, 8)
+	if r.Chance(0.15) {
+		nk = r.Range(9, 18) // wide hashes: every bucket mechanism with many neighbours
+	}
+	sc.Keys = genHashKeys(r, nk)
 	sc.Ctor = r.Pick([]string{"hash", "hash", "curly", "empty", "msgmap"})
 	if sc.Ctor != "empty" {
 		for _, j := range r.Perm(len(sc.Keys)) {
@@ -153,12 +157,16 @@ func genHashScenario(r *kernel.RNG, tier string, i int) interface{} {
 			}
 		}
 	}
+	if len(sc.Init) > 0 && r.Chance(0.25) {
+		// the same key given twice to the constructor: it keeps its first place and takes the later value
+		sc.Init = append(sc.Init, sc.Init[r.Intn(len(sc.Init))])
+	}
 	n := r.Range(1, 40)
 	if r.Chance(0.5) {
 		n = r.Range(1, 10)
 	}
 	// swarm: per-scenario op weights
-	w := []int{r.Range(1, 6), r.Range(0, 6), r.Range(0, 3), r.Range(0, 3), r.Range(0, 2), 1}
+	w := []int{r.Range(1, 6), r.Range(0, 6), r.Range(0, 3), r.Range(0, 3), r.Range(0, 2), 1, r.Range(0, 2)}
 	hasAlias := false
 	for j := 0; j < n; j++ {
 		op := hop{K: r.Intn(len(sc.Keys)), V: 1000 + j}
@@ -183,6 +191,8 @@ func genHashScenario(r *kernel.RNG, tier string, i int) interface{} {
 			} else {
 				op.Op = "hset"
 			}
+		case 6:
+			op.Op = "keysmut"
 		}
 		if hasAlias && op.Op != "alias" {
 			op.Via = r.Pick([]string{"h", "g", "arr"})
@@ -807,6 +817,13 @@ func execHash(body json.RawMessage) *kernel.Result {
 				fail("C14.V-value", "hget-default", "step %d: (hget %s %s 77) = %s, model %d", step, H, k, o, want)
 			}
 		case "obs":
+		case "keysmut":
+			// the list returned by keys belongs to the caller: writing into it and growing it changes nothing in the hash
+			accN++
+			kv := fmt.Sprintf("ks%d", accN)
+			ev(fmt.Sprintf("(def %s (keys %s)) (cond (> (len %s) 0) (aset %s 0 (aget %s (- (len %s) 1))) nil)", kv, H, kv, kv, kv, kv))
+			ev(fmt.Sprintf("(set %s (append %s (aget %s 0)))", kv, kv, kv))
+			res.Probe("keys-list-mutated")
 		}
 		sig(op.Op)
 		res.Tracef("%d %s %s -> n=%d", step, op.Op, ck, len(m.keys))
